@@ -29,6 +29,28 @@ T = {
  "C20": ("other", "Decides: retry wrappers return nil only if the last attempt succeeded; proxy methods return call's error unchanged; arguments and replies are passed through without rebuilding; SubmitTx ack=false becomes an error; every field of every type crossing the JSON-RPC boundary is exported and untagged; InmemProxy copies on submit. Ordering per connection and behaviour under drops NOT decided. Also: every method of the application-side RPC server returns the handler error.", "as C01; net/rpc+jsonrpc summaries", "path analysis of the retry loops + data-dependence identity + field tables from go/types", "DESIGN.md §4 C20"),
 }
 
+# round g additions to the level texts (rules_g.go)
+G = {
+ "C01": " Round g: consensus functions propagate the errors of the store reads they test (no failed read memoised as an answer); no accumulating map range is cut short; one full consensus pass after every inserted event; InsertEvent always computes the event's coordinates; the search for round-received steps over undecided rounds at or below a reset point.",
+ "C02": " Round g: Hashgraph.Reset stores the anchor block and resets the store unconditionally; core.commit / signBlock report the failures they test.",
+ "C03": " Round g: C03.errs (tested store errors end in error returns, 12 documented 'absent is an answer' sites apart), C03.mapcut, C03.perevent.",
+ "C04": " Round g: element-wise conversions are total: every received event becomes a frame event, every frame event's payload reaches the block (no filter, no early exit).",
+ "C05": " Round g: core.sync / signAndInsertSelfEvent / insertEventAndRunConsensus / recordHeads / setHeadAndSeq report the failures they test.",
+ "C07": " Round g: the digest a membership request is signed over covers the whole request body.",
+ "C08": " Round g: no make() sized by a peer-supplied integer; each shape test's failing edge is an error exit and the validator reports every failed check; hashgraph reads for a peer happen under the core lock.",
+ "C10": " Round g: a joiner holds back until its accepted round (gate, writers of acceptedRound, join response, promise round); core.validators follows every recorded set; first-round bookkeeping complete; lazy digests filled exactly when empty; membership-request digest covers the body.",
+ "C11": " Round g: replayed events take the live path (no replay mode above the store, coordinates always recomputed); Bootstrap and the path it replays through report failures; the empty head is kept only when there is no last event.",
+ "C12": " Round g: core.fastForward / checkFastForwardShape report every failed check (a refusal cannot look like success to Node.fastForward); PeerSet.Hash fills its memo exactly when empty; the seen-set of CheckBlock is really updated.",
+ "C13": " Round g: Reset unconditional block store; every frame event / root event reaches the reset list; joiner hold-back; undecided rounds below the reset point are stepped over; no accumulating map range cut short in the frame builders.",
+ "C14": " Round g: nothing of a response is adopted unless CheckBlock accepted its block (no shortcut), and refusals are reported (C14.accept, C14.errs).",
+ "C15": " Round g: wire conversions are element-wise total (no dropped signature / transaction); lazy getters of the memoised digests.",
+ "C17": " Round g: every request handler answers on every path; reads for a peer under the core lock; too-many-undetermined and eviction each suspend alone.",
+ "C18": " Round g: one timestamp per famous witness (no filter), and the frame functions read no local clock.",
+}
+for k, v in G.items():
+    c, text, note, tech, ref = T[k]
+    T[k] = (c, text + v, note, tech, ref)
+
 NA = {
  "C06": "Liveness under fair gossip quantifies over unbounded fair schedules and asserts a bound on exchanges until idle; no clause is visible in the shape of the code (termination of virtual voting is semantic/probabilistic). Static analysis in reach cannot bound it (DESIGN.md §5).",
 }
